@@ -3,6 +3,7 @@ import Dcg.Gen.Constraints
 import Dcg.Proofs.Sem
 import Dcg.Props.C03
 import Dcg.Model.Siblings
+import Dcg.Proofs.TypesCall
 /-
 C04 — constraints stated in the schema are enforced by the generated model.
 Part 1 (this file): the keyword tables. The statements quantify over the tables regenerated from
@@ -608,5 +609,84 @@ theorem violation_accepted_nullable_map :
       (.obj [("k".toList, .str "zq".toList)]) = .accept ∧
     validJN (fun _ _ => true) 6 [] (.ndict (.scalar .integer false {})) (.obj [("k".toList, .str "zq".toList)]) = false ∧
     (Schema.ndict (.scalar .integer false {})).oneOfFree = false := by decide +kernel
+
+/-! ### Constrained-type CALLS in a rendered union (`types._remove_none_from_union` / `get_optional_type`)
+
+Without --field-constraints the keywords of a scalar travel as the keyword arguments of a call —
+`conint(ge=0, le=100, multiple_of=2)` — and the hint of a member that is not required (or nullable) goes through the
+string surgery of `get_optional_type`.  `Dcg.Model.Types.removeNoneU` is the character-level transliteration of that
+function (tied to the real one on every run: campaign `types.rmnone … call-syntax hints`).  It splits at every comma
+outside SQUARE brackets, so the keyword arguments of a call are parts of their own; a member is modelled as the list
+of its fragments (`Dcg.Proofs.TypesCall.Member`). -/
+section Calls
+open Dcg.Model.Types Dcg.Proofs.TypesCall
+
+/-- FULL-STRENGTH statement (false of the code, kept visible): whatever the texts of the members are (trimmed, not
+`None`, not themselves a `Union[`), removing `None` from `Union[t₁, …, tₖ, None]` gives `Union[t₁, …, tₖ]`. -/
+def UnionMembersPreserved : Prop :=
+  ∀ ts : List Str, 2 ≤ ts.length →
+    (∀ t ∈ ts, Dcg.Proofs.Types.trimmedS t = true ∧ startsWith sUnionPrefix t = false ∧ t ≠ sNone) →
+    removeNone false (sUnionPrefix ++ joinSep sComma (ts ++ [sNone]) ++ [']']) = sUnionPrefix ++ joinSep sComma ts ++ [']']
+
+/-- REFUTATION (known finding D33): a comma NOT followed by a blank inside a call — the pattern `^z{2,}` — comes back
+as `^z{2, }`: the text of the member is not preserved (the parts are re-joined with `", "`). -/
+theorem union_members_not_preserved_D33 : ¬ UnionMembersPreserved := by
+  intro h
+  have := h ["constr(pattern=r'^z{2,}')".toList, "int".toList] (by decide) (by decide +kernel)
+  exact absurd this (by decide +kernel)
+
+/-- PARTIAL, the region = every member is `None` or a list of fragments that are single pieces of the split
+(`unionOK`, decidable: trimmed, square brackets closed, no comma outside them, not `None`, not a `Union[`) — which is
+what the generator writes for `conint` / `confloat` / `constr` / `condecimal` calls whose patterns have no comma
+outside square brackets other than `", "`: **every fragment of every member that is not `None` comes back, in order,
+exactly once** — in particular a keyword argument that is textually equal in two members (`le=100` in both) is kept
+in both; nothing is merged, dropped or reordered. -/
+theorem union_call_fragments_kept_partial (ms : List Member) (h : unionOK ms = true) :
+    removeNone false (unionText ms) = mkText (keep ms).flatten := by
+  simp only [removeNone, Bool.false_eq_true, if_false]
+  exact removeNoneU_calls ms h
+
+/-- …so with two or more fragments left (two members, or one call with two keyword arguments) the result is the
+union of the members that are not `None`, each VERBATIM, and `get_optional_type` wraps exactly that text. -/
+theorem union_call_members_preserved_partial (ms : List Member) (h : unionOK ms = true)
+    (h2 : 2 ≤ (keep ms).flatten.length) :
+    removeNone false (unionText ms) = unionText (keep ms) ∧
+    getOptionalType false (unionText ms) = sOptionalPrefix ++ unionText (keep ms) ++ [']'] := by
+  have hne : ∀ m ∈ keep ms, m ≠ [] := fun m hm =>
+    unionOK_members_ne_nil h m (List.mem_filter.mp hm).1
+  have e : removeNone false (unionText ms) = unionText (keep ms) := by
+    rw [union_call_fragments_kept_partial ms h, mkText_flatten_union _ hne h2]
+  refine ⟨e, ?_⟩
+  have hnn : unionText (keep ms) ≠ [] ∧ unionText (keep ms) ≠ sNone := by
+    constructor <;> simp [unionText, sUnionPrefix, sNone]
+  simp only [getOptionalType, e, hnn.1, hnn.2, or_self, if_false, Bool.false_eq_true]
+
+/-- the union of the demonstration: two `conint` calls with the same `le=100`, and `None` -/
+def callDemo : List Member :=
+  [["conint(ge=0".toList, "le=100".toList, "multiple_of=2)".toList],
+   [sNone],
+   ["conint(ge=51".toList, "le=100".toList, "multiple_of=5)".toList]]
+
+/-- non-vacuity: the demonstration is in the region, has a shared fragment, and the theorem gives the expected text -/
+example : unionOK callDemo = true ∧ 2 ≤ (keep callDemo).flatten.length ∧
+    unionText callDemo = "Union[conint(ge=0, le=100, multiple_of=2), None, conint(ge=51, le=100, multiple_of=5)]".toList ∧
+    unionText (keep callDemo) = "Union[conint(ge=0, le=100, multiple_of=2), conint(ge=51, le=100, multiple_of=5)]".toList := by
+  decide +kernel
+
+example : getOptionalType false (unionText callDemo) =
+    "Optional[Union[conint(ge=0, le=100, multiple_of=2), conint(ge=51, le=100, multiple_of=5)]]".toList := by
+  rw [(union_call_members_preserved_partial callDemo (by decide +kernel) (by decide +kernel)).2]
+  decide +kernel
+
+/-- WITNESS that "exactly once, equal fragments included" is the point: the variant of the function that skips a
+part it has already listed (de-duplicating the PARTS of the split instead of the members) loses the second member's
+`le=100` — the text is still a well-formed hint, it just lacks that keyword. -/
+theorem dedup_of_parts_loses_keyword :
+    mkText ((keep callDemo).flatten.eraseDups) =
+      "Union[conint(ge=0, le=100, multiple_of=2), conint(ge=51, multiple_of=5)]".toList ∧
+    mkText ((keep callDemo).flatten.eraseDups) ≠ unionText (keep callDemo) := by
+  decide +kernel
+
+end Calls
 
 end Dcg.Props.C04
